@@ -591,7 +591,8 @@ static std::vector<Scn> scenarios(const std::string &tier){
     for(int budget : {6, 12}){
         for(int f : fams) for(int batch : {1, 2}){ Scn s; s.fam = f; s.budget = budget; s.batch = batch; v.push_back(s); }
         if (th && budget == 6) for(int f : {FAM_LOCALP, FAM_GLOBAL}) for(int batch : {1, 2}){ Scn s; s.fam = f; s.budget = 6; s.batch = batch; s.parallel = 1; v.push_back(s); }
-        if (th && budget == 6) for(int batch : {1, 2}){ Scn s; s.fam = FAM_LOCALP; s.budget = 4; s.batch = batch; s.preload = PRELOAD_DEPTH; v.push_back(s); }
+        // the only way to a NON-EMPTY sample store in the checkpoint: a grid that already holds >= 1000 points (quick: batch 1 only, reduced torn offsets)
+        if (budget == 6) for(int batch : (th ? std::vector<int>{1, 2} : std::vector<int>{1})){ Scn s; s.fam = FAM_LOCALP; s.budget = 4; s.batch = batch; s.preload = PRELOAD_DEPTH; v.push_back(s); }
     }
     return v;
 }
@@ -696,7 +697,7 @@ int main(int argc, char **argv){
         const KP &kp = kps[r][kps[r].size() / 2]; vf::emit(vf::J().s("t","sample").raw("case", case_json(R, kp)));
     }
     for(auto &o : outcomes) vf::emit(vf::J().s("t","outcome").s("key", o.first).i("n", o.second));
-    std::string bound = "tier=" + tier + ": " + std::to_string(refs.size()) + " scenarios (family x budget {6,12} x batch {1,2}" + (tier == "thorough" ? " + parallel mode with 1 worker thread (budget 6) + local polynomial grid preloaded with >= 1000 points (non-empty sample store, 4 further samples)" : "") + "); every file-system event of the recorded history is a kill point; torn writes at "
+    std::string bound = "tier=" + tier + ": " + std::to_string(refs.size()) + " scenarios (family x budget {6,12} x batch {1,2}" + (tier == "thorough" ? " + parallel mode with 1 worker thread (budget 6) + local polynomial grid preloaded with >= 1000 points (non-empty sample store, 4 further samples)" : " + one local polynomial scenario preloaded with >= 1000 points (non-empty sample store)") + "); every file-system event of the recorded history is a kill point; torn writes at "
                        + (every_byte ? "every byte offset of every checkpoint <= 4 KiB; larger checkpoints: offsets {1, n-1, every field boundary -1/0/+1, every 512th byte, every byte of the last 320 bytes (sample store)}" : "offsets {1, n-1, every field boundary -1/0/+1, every 24th byte} (all offsets for writes <= 64 bytes)") + "; death after completion included";
     { std::string tt; for(auto &o : times){ char b[64]; snprintf(b, sizeof(b), "%.1f", o.second); tt += o.first + "=" + b + "s "; } vf::emit(vf::J().s("t","note").s("text", "worker time by restart result class: " + tt)); }
     vf::emit(vf::J().s("t","note").s("text", "wall of the enumeration: " + std::to_string(vf::now() - t0) + " s"));
